@@ -732,7 +732,7 @@ class C19(PropBase):
         # instructions without a memory operand (no accesses, no registers): nop / mov rax,rbx
         for instr in ("90", "4889d8"):
             cases.append("Q 9 1 11 1 0 0 0 65536 A %s %s - D 0 0 0 0 0 0 0 1 0 4096 4" % (" ".join(["4096"] * 17), instr))
-        for _ in range(8000 if tier == "quick" else 60000):
+        for _ in range(14000 if tier == "quick" else 60000):
             cases.append(self.gen_q(rng, dist))
             dist["Q"] = dist.get("Q", 0) + 1
         for _ in range(600 if tier == "quick" else 6000):
